@@ -123,6 +123,10 @@ def _doc():
 #                          ['pool', i, copy]                w = w * pool[i]   (copy: w * pool[i].copy())
 #                          ['prop', 'dft'|'fft', variant]   w = propagate_xxx(w, ..)
 #                          ['fresh', type, body, variant]   w = a new wavefront; the pool lives on
+#                          ['setp', name, form]             w.ptype = name (form 1: the string, 0: the ptype object;
+#                                                           'bogus' = a name that is no plane type); tilt,
+#                                                           transform and bogus must be refused with TypeError
+#                                                           and leave the wavefront as it was (oracle only)
 #                          ['back', k]                      w = the wavefront that was the operand k steps ago
 #                                                           (one wavefront object fanned out to several planes /
 #                                                           propagations; such cases are judged by the oracle
@@ -148,6 +152,8 @@ def _norm(c, o):
                 bool(o[5]) if len(o) > 5 else False)
     if o[0] == 'back':
         return ('back', o[1], 0, False, None, False, None, False)
+    if o[0] == 'setp':
+        return ('setp', o[1], o[2] if len(o) > 2 else 0, False, None, False, None, False)
     return (o[0], o[1], o[2] if o[0] == 'prop' else (o[2], o[3] if len(o) > 3 else 0), False, None, False, None, False)
 
 
@@ -262,6 +268,13 @@ def _generate(rng, tier):
                 n += 1
                 yield routes(dict(regime(n, kind != 'prop' or w == 'none', mism), op='program', start=w, body=b,
                                   sv=n % 24, pool=[], ops=[mk(kind, name, clip, po, mism)]), n)
+    # 1b. the ptype setter: every state x every name (legal, illegal, unknown) x both forms, then a legal step
+    for (w, b) in states:
+        for nm in PTYPES + ['bogus']:
+            for form in (0, 1):
+                n += 1
+                yield dict(regime(n), op='program', start=w, body=b, sv=n % 24, pool=[],
+                           ops=[['setp', nm, form], mk('mulp', 'tilt', False)])
     # 2. every plane kind as ONE long-lived object used on wavefronts of two different types (both orders),
     #    directly, through copy(), and once more on the first type
     for kind, name, clip, po in planes:
@@ -300,6 +313,9 @@ def _generate(rng, tier):
         if rng.random() < 0.02:      # known-finding inputs stay rare
             k = rng.choice(BROKEN)
             ops.insert(rng.randrange(len(ops) + 1), ['mulc', k, rng.randrange(gen_ptype.n_variants('mulc', k)), False])
+        if rng.random() < 0.1:       # assignments to wavefront.ptype, legal and refused
+            for _ in range(rng.randint(1, 2)):
+                ops.insert(rng.randrange(len(ops) + 1), ['setp', rng.choice(PTYPES + ['bogus']), rng.randrange(2)])
         if rng.random() < 0.12:      # fan one wavefront object out to several steps
             for _ in range(rng.randint(1, 3)):
                 ops.insert(rng.randrange(1, len(ops) + 1), ['back', rng.randint(1, 3)])
@@ -313,7 +329,7 @@ def classify(c):
     n = len(c['ops'])
     if n == 1:
         return 'single:' + c['ops'][0][0]
-    tag = 'fanout' if any(o[0] == 'back' for o in c['ops']) else 'pool' if c.get('pool') else 'program'
+    tag = 'setter' if any(o[0] == 'setp' for o in c['ops']) else 'fanout' if any(o[0] == 'back' for o in c['ops']) else 'pool' if c.get('pool') else 'program'
     return tag + ':len' + ('2' if n == 2 else '<=5' if n <= 5 else '<=12' if n <= 12 else '<=40')
 
 
@@ -327,7 +343,7 @@ def encode(c):
     out = [1, WTYPES.index(c['start']), BODIES.index(c['body']), len(c['ops'])]
     for o in c['ops']:
         kind, name, v, clip, _pi, _cp, po, mism = _norm(c, o)
-        if kind == 'back':
+        if kind in ('back', 'setp'):
             return None
         if kind == 'mulp':
             out += [0, PTYPES.index(name), int(clip) + 2 * int(mism)]
@@ -429,6 +445,19 @@ def run_impl(c, hook=None):
                 entry['yields'] = _state(w)
                 trace.append(entry)
                 continue
+            if kind == 'setp':
+                sw = snapshot(w)
+                try:
+                    w.ptype = name if (v or name == 'bogus') else getattr(lentil, name)
+                except Exception as e:
+                    entry['raises'] = type(e).__name__
+                    entry['kept'] = _state(w)
+                    entry['w_unchanged'] = snapshot(w) == sw
+                    entry['p_unchanged'] = True
+                else:
+                    entry['yields'] = _state(w)
+                trace.append(entry)
+                continue
             if kind == 'fresh':
                 try:
                     w = gen_ptype.build_wavefront(lentil, name, v[0], v[1], reg)
@@ -519,6 +548,31 @@ def _failures(c, impl):
         kind, name, v, clip, pi, cp, po, mism = _norm(c, c['ops'][i])
         if e['before'] != cur:
             out.append((i, 'state', f'step {i}: wavefront state {e["before"]} is not the state the previous step left ({cur})'))
+        if kind == 'setp':
+            what = f'step {i} wavefront.ptype = {name!r} on a {e["before"][0]} wavefront ({e["before"][1]})'
+            if name in WTYPES:
+                if 'raises' in e:
+                    out.append((i, 'setter', f'{what}: raised {e["raises"]}, a wavefront may be none, pupil or image'))
+                    cur = e['kept']
+                else:
+                    if e['yields'] != [name, e['before'][1]]:
+                        out.append((i, 'setter', f'{what}: the wavefront now reads {e["yields"]}'))
+                    cur = e['yields']
+            else:
+                if 'raises' not in e:
+                    out.append((i, 'setter', f'{what}: accepted (wavefront now {e["yields"]}), documented: a wavefront '
+                                             f'is none, pupil or image'))
+                    cur = e['yields']
+                else:
+                    if e['raises'] != 'TypeError':
+                        out.append((i, 'setter', f'{what}: raised {e["raises"]}, not TypeError'))
+                    if e['kept'] != e['before'] or not e['w_unchanged']:
+                        out.append((i, 'kept', f'{what}: refused ({e["raises"]}) but the wavefront changed '
+                                               f'{e["before"]} -> {e["kept"]}'))
+                    cur = e['kept']
+            if cur[0] not in WTYPES:
+                break
+            continue
         if kind == 'back':
             cur = e['yields']               # whatever state that wavefront object is in now
             if cur[0] not in WTYPES:
